@@ -3,7 +3,7 @@
    Only statements; proofs are in Proofs/IlpP10.v. *)
 From Coq Require Import ZArith Bool List.
 Import ListNotations.
-From Verif Require Import Model.Val Gen.Src_Ilp Model.IlpModel Proofs.IlpP Proofs.IlpP11 Proofs.IlpP10.
+From Verif Require Import Model.Val Gen.Src_Ilp Model.IlpModel Proofs.IlpP Proofs.IlpP11 Proofs.IlpP10 Proofs.IlpP14 Proofs.IlpP14s.
 Open Scope Z_scope.
 
 (* exactly one decision per decided (offered or earlier SCHEDULED, not RUNNING) task, in order, no duplicates *)
@@ -40,6 +40,15 @@ Theorem C10_ilp_capacity : forall I a, sat (gen_ilp I) a -> nodup_ids I -> rt_no
   usage_a I a w (fst rq) tau <= snd rq.
 Proof. exact capacity_never_exceeded. Qed.
 Print Assumptions C10_ilp_capacity.
+
+(* the same at the level of the returned plan: at every instant the usage computed from the Placements read back
+   (and the running tasks) fits, under the planner's closed-interval convention and a fortiori under the simulator's
+   half-open one (running tasks occupying [now, now + remaining)) *)
+Theorem C10_ilp_plan_capacity : forall I a, sat (gen_ilp I) a -> wf I ->
+  forall w wk rq tau, In (w, wk) (wenum I) -> In rq (w_res wk) ->
+  usage_cl I (readback I a) w (fst rq) tau <= snd rq /\ usage_ho I (readback I a) w (fst rq) tau <= snd rq.
+Proof. exact plan_capacity_every_instant. Qed.
+Print Assumptions C10_ilp_plan_capacity.
 
 (* the hypotheses are satisfiable and the usage is not trivially 0 *)
 Theorem C10_ilp_nonvacuous : exists I a, sat (gen_ilp I) a /\ nodup_ids I /\ rt_nonneg I /\ req_nonneg I /\ dep_linked I /\
